@@ -45,10 +45,18 @@ CLAIMED = {
    text='Kernel only (the sentence a contract can be attached to): std_allocator<T,A> over a stateful A compares equal exactly when both reference the same allocator object; allocate/deallocate go to that referenced object with the node/array decision mirrored; rebinding (converting constructor) and select_on_container_copy_construction keep the reference. Hence equal allocators release into the same allocator object.',
    note='NOT covered and not claimable by this family here: the container sentence (libstdc++ container/shared_ptr/unique_ptr code honouring the propagation typedefs over all operation sequences) and the X_node_size<T> sentence (produced at configure time by cmake/get_node_size.cpp). Stateless and shared-reference storage forms are not instantiated.',
    ref='8 (C10)'),
+ 'C11': dict(
+   text='Proof: detail::joint_stack (ctor covers exactly [mem, mem+cap); allocate returns null or an aligned piece at or after the old top that ends at the new top <= end; bump refuses what does not fit; unwind; capacity figures), joint_type constructor (joint memory = the capacity bytes directly after the object), joint_allocator::allocate_node (never null: out_of_fixed_memory after its handler, stack untouched) / deallocate_node (only the last piece is unwound), joint_ptr::create (ONE upstream allocate_node(sizeof(T)+additional, alignof(T)); object at the block start), reset (destructor once, then one deallocate_node with exactly that size and alignment), move constructor; joint_array storage allocation.',
+   note='Upstream allocator, the joint object constructor hook and element types abstract; block modelled as an object of constant size >= the request (extents pinned by postconditions); joint memory <= 4 KiB in create, <= 2^20 elsewhere. clone_joint, joint_array range/copy constructors, swap and move assignment not covered; size*sizeof(T) overflow in joint_array (F-19) excluded by size <= 2^16.',
+   ref='8 (C11)'),
  'C12': dict(
    text='Proof of step: move constructor, move assignment and swap of free_memory_list, ordered_free_memory_list (all first/last-node shapes: sentinel link words re-pointed to the new proxies), fixed_memory_stack, memory_block_stack, memory_arena (cached/uncached), iteration_allocator (assignment releases the target\'s block exactly once, F-4 fixed; destructor of a moved-from object releases nothing): the new owner holds exactly the old owner\'s fields, the moved-from object is the empty representation, the frame is the two objects plus link words inside free nodes.' + STEP,
    note='Not covered: small_free_memory_list, free_list_array, memory_pool, memory_pool_collection, memory_stack (implicit members), block allocators, virtual_block_allocator (F-9 read-only finding, not under contract).',
    ref='8 (C12)'),
+ 'C20': dict(
+   text='Proof with exceptions as a ghost flag and a ghost liveness bit for ONE arbitrary element: detail::construct (both forms; loop contracts on the construction and the rollback loop): success = every element of the range constructed, none destroyed; a constructor threw = every element built so far destroyed exactly once (the abstract destructor requires a live object, so destroying an unconstructed slot or destroying twice fails), exception unchanged. joint_array<T>::builder create/~builder and the joint_array(size) constructor: same, plus the array storage is unwound from the joint stack. joint_ptr::create: constructor throws => the block is given back once with the allocation parameters, exception unchanged.',
+   note='NOT covered: allocate_unique / allocate_array_unique / allocate_shared as a whole (their guards are std::unique_ptr / std::allocate_shared from libstdc++, outside the extractor) -- only the construct helper they call; clone_joint; the other joint_array constructor forms. Arrays <= 2^20 (construct) / 2^16 (joint_array) elements.',
+   ref='8 (C20)'),
  'C13': dict(
    text='Proof of the lock discipline (sequential): every forwarding member of allocator_storage<direct_storage<A>, Mutex> (throwing, composable; node/array) reaches the wrapped allocator only with the ghost mutex_held == 1 (precondition of every leaf member), takes the mutex exactly once and has released it on every exit including when the leaf or lock() throws; the lock() proxy is handed out with the mutex held, releases it exactly once on destruction, and a moved-from proxy releases nothing.',
    note='That a correct mutex then serialises all schedules, data-race freedom of stateless allocators, and the size-query members (max_node_size etc.) are not mechanised; stateless leaf (no_mutex selection) not instantiated.',
@@ -103,9 +111,7 @@ def main():
     json.dump(m, open(os.path.join(HERE, 'MANIFEST.json'), 'w'), indent=1)
 
 NA = {
- 'C11': 'not built yet: joint_allocator.hpp functions (joint_stack, joint_ptr, joint_allocator, joint_array) are not under contract; no other technique is substituted',
  'C14': 'not built yet for the sequential kernel (temporary_allocator ctor/dtor, temporary_stack_list); the schedule half (thread interleavings, cross-thread reuse) cannot be expressed by contracts in this family at all',
- 'C20': 'not built yet: exception/RAII paths of detail::construct and joint_array::builder are not under contract; allocate_unique/allocate_shared guards live in libstdc++ (outside the extractor)',
 }
 if __name__ == '__main__':
     main()
